@@ -61,6 +61,19 @@ func main() {
 			usage()
 		}
 		os.Exit(one(os.Args[2], os.Args[3]))
+	case "racepass":
+		// verif racepass <reps>: C19 part 2, meant for the -race flavour of this binary.
+		reps := 20
+		if len(os.Args) > 2 {
+			reps, _ = strconv.Atoi(os.Args[2])
+		}
+		pairs, runs, mismatch := checks.RacePass(reps)
+		fmt.Printf("racepass: %d operation pairs, %d free-running runs\n", pairs, runs)
+		if mismatch != "" {
+			fmt.Println("racepass: RESULT MISMATCH:", mismatch)
+			os.Exit(1)
+		}
+		fmt.Println("racepass: no race report, all results equal the sequential ones")
 	case "selftest":
 		os.Exit(selftest(""))
 	case "list":
@@ -341,6 +354,17 @@ func orchestrate(id, tier, recordFile string) int {
 		fmt.Printf("recorded %d failing case keys to %s\n", len(recorded), recordFile)
 	}
 
+	postEv := map[string]any{}
+	if ck.Post != nil && recordFile == "" {
+		ev2, vs, err := ck.Post(verifDir(), tier)
+		if err != nil {
+			fmt.Println("FRAMEWORK-ERROR:", err)
+			return 2
+		}
+		postEv = ev2
+		viol = append(viol, vs...)
+		violCount += int64(len(vs))
+	}
 	_, findings, _ := checks.LoadKnown(verifDir(), id)
 	rc := 0
 	knownOut := []any{}
@@ -392,6 +416,9 @@ func orchestrate(id, tier, recordFile string) int {
 	cov["driver_panics_skipped"] = panics
 	cov["known_findings_reproduced"] = knownOut
 	cov["workers"] = nw
+	for k, v := range postEv {
+		cov[k] = v
+	}
 	cov["worker_deadline_s"] = deadline
 	if !exhaustive {
 		cov["note"] = "a deadline or the early stop after violations ended at least one exploration before its space was exhausted; see explorations[].exhaustive"
